@@ -354,7 +354,11 @@ fn alloc16_map(free: u8, prev_c: u32, zero: bool, hint: Option<u32>) {
     let w: usize = kani::any();
     kani::assume(w < LOG_CAP && (w as u32) < dev.nwrites.get());
     let idx = dev.log.borrow()[w];
-    let ok_region = idx == G16A_FAT || (zero && r.is_ok() && idx >= G16A_DATA && idx < G16A_DATA + COUNT);
+    let newblk = match r {
+        Ok(n) => G16A_DATA + n.0 - 2,
+        Err(_) => u32::MAX,
+    };
+    let ok_region = idx == G16A_FAT || (zero && idx == newblk);
     assert!(ok_region, "write.region: alloc wrote outside the FAT / the new cluster");
     kani::cover!(r.is_ok() == (nfree > 0), "instance reaches its expected outcome");
 }
@@ -1299,6 +1303,9 @@ fn c10_crash_make_dir16() {
         p += 1;
     }
     assert!(le16(&fat.contents, 4) == 0xFFFF, "crash.flushed: FAT entry of an unrelated flushed file changed");
+    // the directory takes the lowest free cluster (3); the data cluster that physically
+    // follows it (4) and the flushed file's cluster (2) are never written
+    assert!(!dev.wrote(G16A_DATA) && !dev.wrote(G16A_DATA + 2) && !dev.wrote(G16A_DATA + 3), "write.region: mkdir wrote a data cluster other than the new directory's");
     // the new sub-directory entry (slot 1), if visible
     if root.contents[32] != 0x00 && root.contents[32] != 0xE5 && root.contents[32 + 11] & 0x10 != 0 {
         let c = le16(&root.contents, 32 + 26) as u32;
